@@ -78,6 +78,9 @@ def ty_py(t, quote_leaf: bool) -> str:
         return f"Dict[{ty_py(t[1], quote_leaf)}, {ty_py(t[2], quote_leaf)}]"
     if k == "Bare":
         return ORIGINS[t[1]]
+    if k == "U":
+        a, b = ty_py(t[2], quote_leaf), ty_py(t[3], quote_leaf)
+        return f"{a} | {b}" if t[1] else f"Union[{a}, {b}]"
     raise ValueError(t)
 
 
@@ -107,6 +110,8 @@ def ty_coq(t, ids: Dict[str, int]) -> str:
         return f"(DictOf {ty_coq(t[1], ids)} {ty_coq(t[2], ids)})"
     if k == "Bare":
         return f"(Bare {ORIGIN_COQ[t[1]]})"
+    if k == "U":
+        return f"(UnionPair {cb(t[1])} {ty_coq(t[2], ids)} {ty_coq(t[3], ids)})"
     raise ValueError(t)
 
 
@@ -139,6 +144,8 @@ def ty_to_sx(t, ids) -> Any:
         return [11]
     if k == "FL":
         return [12, ids[t[1]]]
+    if k == "U":
+        return [13, int(bool(t[1])), ty_to_sx(t[2], ids), ty_to_sx(t[3], ids)]
     return [99]
 
 
@@ -189,6 +196,8 @@ def py_to_ty(o, env) -> tuple:
             return ("P" if org is types.UnionType else "O", py_to_ty(args[0], env))
         if len(args) == 2 and args[0] is none:
             return ("X", "pep604-none-first") if org is types.UnionType else ("OL", py_to_ty(args[1], env))
+        if len(args) == 2:
+            return ("U", 1 if org is types.UnionType else 0, py_to_ty(args[0], env), py_to_ty(args[1], env))
         return ("X", "union")
     if org in table:
         if not args:
@@ -226,15 +235,22 @@ def _pred_values(wf, env, ids) -> list:
     return out
 
 
+_OBJNAME: Dict[Any, str] = {}
+
+
+def _cname(cls) -> str:
+    return _OBJNAME.get(cls, cls.__name__)
+
+
 def _snapshot(cd, ids) -> list:
     from krrood.class_diagrams.class_diagram import Association, Inheritance
-    nodes = [ids[w.clazz.__name__] for w in cd.wrapped_classes]
+    nodes = [ids[_cname(w.clazz)] for w in cd.wrapped_classes]
     edges = []
     for e in cd._dependency_graph.edges():
         if isinstance(e, Inheritance):
-            edges.append([0, ids[e.source.clazz.__name__], ids[e.target.clazz.__name__], 1])
+            edges.append([0, ids[_cname(e.source.clazz)], ids[_cname(e.target.clazz)], 1])
         elif isinstance(e, Association):
-            edges.append([1, ids[e.source.clazz.__name__], ids[e.target.clazz.__name__], ids[e.field.field.name]])
+            edges.append([1, ids[_cname(e.source.clazz)], ids[_cname(e.target.clazz)], ids[e.field.field.name]])
         else:
             edges.append([9, 0, 0, 0])
     return [nodes, sorted(edges)]
@@ -252,7 +268,7 @@ def _independent_reading(classes, by_name, env, ids) -> list:
     for c in nodes:
         for b in c.__bases__:
             if b in nodes:
-                edges.append([0, ids[b.__name__], ids[c.__name__], 1])
+                edges.append([0, ids[_cname(b)], ids[_cname(c)], 1])
     for c in nodes:
         if not dataclasses.is_dataclass(c):
             continue
@@ -266,16 +282,16 @@ def _independent_reading(classes, by_name, env, ids) -> list:
             elif t[0] == "K":
                 t = t[2]
             if t[0] in ("C", "E") and by_name[t[1]] in nodes:
-                edges.append([1, ids[c.__name__], ids[t[1]], ids[f.name]])
-    return [[ids[c.__name__] for c in nodes], sorted(edges)]
+                edges.append([1, ids[_cname(c)], ids[t[1]], ids[f.name]])
+    return [[ids[_cname(c)] for c in nodes], sorted(edges)]
 
 
 def _edge_tuple(e, ids) -> list:
     from krrood.class_diagrams.class_diagram import Association, Inheritance
     if isinstance(e, Inheritance):
-        return [0, ids[e.source.clazz.__name__], ids[e.target.clazz.__name__], 1]
+        return [0, ids[_cname(e.source.clazz)], ids[_cname(e.target.clazz)], 1]
     if isinstance(e, Association):
-        return [1, ids[e.source.clazz.__name__], ids[e.target.clazz.__name__], ids[e.field.field.name]]
+        return [1, ids[_cname(e.source.clazz)], ids[_cname(e.target.clazz)], ids[e.field.field.name]]
     return [9, 0, 0, 0]
 
 
@@ -284,7 +300,7 @@ def _run_query(cd, q, by_name, ids):
     from krrood.class_diagrams.class_diagram import Association, Inheritance
     k = q[0]
     if k == "nodes":
-        return [ids[w.clazz.__name__] for w in cd.wrapped_classes]
+        return [ids[_cname(w.clazz)] for w in cd.wrapped_classes]
     if k == "associations":
         return sorted(_edge_tuple(e, ids) for e in cd.associations)
     if k == "inheritance":
@@ -298,7 +314,7 @@ def _run_query(cd, q, by_name, ids):
         c = by_name[q[1]]
         rel = Association if q[2] else Inheritance
         f = cd.get_outgoing_neighbors_with_relation_type if k == "outnb" else cd.get_incoming_neighbors_with_relation_type
-        return sorted({ids[w.clazz.__name__] for w in f(c, rel)})
+        return sorted({ids[_cname(w.clazz)] for w in f(c, rel)})
     if k == "ancestors":
         cd.all_ancestors(cd.get_wrapped_class(by_name[q[1]]).index)
         cd.parent_map  # noqa
@@ -412,6 +428,32 @@ def run_case(case: dict, case_dir: str) -> dict:
             break
         trace.append([ans, [_snapshot(o, ids) for o in objs]])
     out["trace"] = trace
+    rb = case.get("rebuild")
+    if rb:
+        # the same process goes on: some classes are defined again (new class objects bound to the same names), then a
+        # second diagram is built; names written as strings denote the new classes, direct references still the old ones
+        import __future__
+        mod = mods[0]
+        flags = __future__.annotations.compiler_flag if case["variant"] == "future" else 0
+        for n in rb["redefine"]:
+            _OBJNAME[by_name[n]] = n + "__old"
+            env[by_name[n]] = (env[by_name[n]][0], n + "__old")
+        exec(compile(rb["source"], mod.__file__ + ":redefinition", "exec", flags, True), vars(mod))
+        by_name2 = dict(by_name)
+        for n in rb["redefine"]:
+            by_name2[n + "__old"] = by_name[n]
+            by_name2[n] = vars(mod)[n]
+            env[by_name2[n]] = (env[by_name[n]][0], n)
+        classes2 = [by_name2[n] for n in rb["classes"]]
+        try:
+            out["pyspec2"] = _independent_reading(classes2, by_name2, env, ids)
+        except Exception as e:  # noqa
+            out["pyspec2"] = ["error", f"{type(e).__name__}: {e}"]
+        try:
+            out["build2"] = [0, _snapshot(ClassDiagram(classes2), ids)]
+        except Exception as e:  # noqa
+            out["build2"] = [1, _exn_code(e)]
+            out["build2_error"] = f"{type(e).__name__}: {e}"
     return out
 
 
@@ -484,6 +526,8 @@ def make_ids(decls) -> Dict[str, int]:
     for d in decls:
         for f in d["fields"]:
             ids.setdefault(f["name"], len(ids) + 2)
+    for d in decls:
+        ids.setdefault(d["name"] + "__old", len(ids) + 2)
     return ids
 
 
@@ -521,7 +565,7 @@ def render_decls(decls, variant: str) -> List[str]:
             lines.append("    pass")
         for f in d["fields"]:
             t = tt(f["ann"])
-            if variant == "whole" or (variant == "leaf" and ty_has(t, "P") and ty_has(t, "F")):
+            if variant == "whole" or (variant == "leaf" and (ty_has(t, "P") or ty_has(t, "U")) and ty_has(t, "F")):
                 ann = '"' + ty_py(t, False) + '"' if (ty_has(t, "F") or variant == "whole") else ty_py(t, False)
             elif variant == "future":
                 ann = ty_py(t, False)
@@ -572,8 +616,12 @@ def ops_coq(ops, ids) -> str:
     return "[" + "; ".join(out) + "]"
 
 
-def case_coq(case) -> str:
+def case_coq(case, with_ops: bool = True) -> str:
+    """with_ops=False: the Spec-only header (model not available) has no operations"""
     ids = case["ids"]
+    if not with_ops:
+        cs = "[" + "; ".join(str(ids[c]) for c in case["classes"]) + "]"
+        return f"case_sx\n  {prog_coq(case['decls'], ids)}\n  {cs} []"
     cs = "[" + "; ".join(str(ids[c]) for c in case["classes"]) + "]"
     return f"case_sx\n  {prog_coq(case['decls'], ids)}\n  {cs} {ops_coq(case['ops'], ids)}"
 
@@ -601,8 +649,11 @@ def gen_ann(rng, targets_cls, targets_enum, earlier, variant, unsupported=False)
         n = rng.choice(targets_enum)
         leaf = ("E", n) if (n in earlier and variant == "leaf" and rng.chance(0.6)) else ("F", n)
     if unsupported:
-        w = rng.randint(1, 5)
-        if w == 1:
+        w = rng.randint(0, 5)
+        if w == 0 and len(targets_cls) >= 2:
+            a, b = rng.sample(targets_cls, 2)
+            return ("U", int(rng.chance(0.6)), ("F", a), ("F", b))
+        if w <= 1:
             return ("P", leaf)
         if w == 2:
             return ("D", ("B", 2), leaf)
@@ -781,12 +832,45 @@ def gen_program(rng, stream: str) -> dict:
                     continue
         ops = gen_ops(rng, classes)
         case = {"kind": "diagram", "stream": stream, "variant": variant, "layout": layout, "decls": decls, "classes": classes, "ops": ops}
+        if stream == "rebuild":
+            # a second diagram in the same process after one class was defined again: a dataclass that others name in strings
+            named = sorted({_leaf(tt(f["ann"]))[1] for d in decls for f in d["fields"] if _leaf(tt(f["ann"]))[0] == "F"} & set(dcs))
+            if not named:
+                continue
+            n = rng.choice(named)
+            classes2 = list(dict.fromkeys(rng.sample(dcs, rng.randint(1, len(dcs))) + [n]
+                                          + [d["name"] for d in decls if any(_leaf(tt(f["ann"])) == ("F", n) for f in d["fields"]) and d["kind"] == "dataclass"]))
+            rng.shuffle(classes2)
+            case["rebuild"] = {"redefine": [n], "classes": classes2}
         return finish_case(case)
     raise RuntimeError("generator could not produce a valid hierarchy")
 
 
+def second_program(case: dict) -> Tuple[list, list]:
+    """The program the second diagram of a 'rebuild' case is built from: every redefined class n exists twice, the
+    replaced object as n__old (still what direct references denote) and the new one as n (what names in strings denote)."""
+    red = set(case["rebuild"]["redefine"])
+
+    def old_leaf(leaf):
+        return (leaf[0], leaf[1] + "__old") if leaf[0] in ("C", "E") and leaf[1] in red else leaf
+    decls2 = []
+    for d in case["decls"]:
+        d2 = dict(d, fields=[dict(f, ann=ty_map_leaf(tt(f["ann"]), old_leaf)) for f in d["fields"]],
+                  bases=[b + "__old" if b in red else b for b in d["bases"]])
+        decls2.append(dict(d2, name=d["name"] + "__old") if d["name"] in red else d2)
+    # the new definitions come last (they are executed after everything else)
+    for d in case["decls"]:
+        if d["name"] in red:
+            decls2.append(dict(d, fields=[dict(f, ann=ty_map_leaf(tt(f["ann"]), old_leaf)) for f in d["fields"]],
+                               bases=[b + "__old" if b in red else b for b in d["bases"]]))
+    return decls2, list(case["rebuild"]["classes"])
+
+
 def finish_case(case: dict) -> dict:
     case["ids"] = make_ids(case["decls"])
+    if case.get("rebuild"):
+        case["rebuild"]["source"] = "\n".join(render_decls([d for d in case["decls"] if d["name"] in case["rebuild"]["redefine"]],
+                                                            case["variant"])) + "\n"
     first = [d for d in case["decls"] if d.get("hidden")]
     if first:
         # classes with hidden names live in c17_m1, which imports the others under TYPE_CHECKING only
@@ -819,12 +903,16 @@ def enum_annotations(depth: int = 2) -> List[tuple]:
         return out
 
     d1 = [w for t in leaves for w in wraps(t)]
+    # unions of two types without None (documented-unsupported: "the only supported union is Optional[T]"), top level only
+    pair_leaves = [("B", 0), ("B", 2), ("C", "C1"), ("C", "P1"), ("E", "E1"), ("F", "C1")]
+    unions = [("U", pep, a, b) for pep in (0, 1) for a in pair_leaves for b in pair_leaves
+              if a != b and not (a[0] in ("C", "F") and b[0] in ("C", "F") and a[1] == b[1])]
     # Union[None, T] / T | None nested in another generic is not observable: typing's generic cache identifies it with Optional[T]
-    d2 = [w for t in d1 if t[0] not in ("OL", "P") for w in wraps(t)]
+    d2 = [w for t in d1 if t[0] not in ("OL", "P") for w in wraps(t)]   # (unions are not wrapped either, same reason)
     if depth >= 3:
         d3 = [w for t in d2 if t[0] not in ("OL", "P") for w in wraps(t)]
-        return leaves + d1 + d2 + d3
-    return leaves + d1 + d2
+        return leaves + d1 + unions + d2 + d3
+    return leaves + d1 + unions + d2
 
 
 CLASSIFY_DECLS = [{"name": "E1", "kind": "enum", "bases": [], "fields": []},
@@ -915,6 +1003,19 @@ def snippet(case) -> str:
 
 # ---------------------------------------------------------------------------------------- classification check
 def check_classification(rep, model_ok: bool, kf_classes: set, depth: int = 2) -> Dict[str, Any]:
+    real_rep, n_viol = rep, [0]
+
+    class _Capped:
+        """at most 8 classification replays per run; the rest is counted"""
+        def violation(self, replay, suffix=""):
+            n_viol[0] += 1
+            if n_viol[0] <= 8:
+                real_rep.violation(replay, suffix)
+
+        def __getattr__(self, a):
+            return getattr(real_rep, a)
+
+    rep = _Capped()
     anns = enum_annotations(depth)
     case = classify_case(anns)
     res = run_worker_batch([case], "classify", procs=1)[0]
@@ -957,6 +1058,16 @@ def check_classification(rep, model_ok: bool, kf_classes: set, depth: int = 2) -
                                "impl": dict(zip(PRED_NAMES[:9], impl[:9])), "spec": dict(zip(PRED_NAMES[:9], spec_vals[i])),
                                "model": None if model_vals is None else model_vals[i],
                                "python": _classify_snippet(t)})
+        elif rt[0] == "U":
+            # a union of two types, none of them None: the annotation says NOT optional, no container, and it is not about
+            # one of its members (no association edge); is_enum / one-to-one are left to the model (unsupported form)
+            stats["union_pairs"] = stats.get("union_pairs", 0) + 1
+            idx = [1, 3, 5, 6, 7, 8]
+            if [impl[j] for j in idx] != [spec_vals[i][j] for j in idx]:
+                rep.violation({"kind": "counterexample", "part": "classification", "case": {"annotation": ty_py(t, True)},
+                               "impl": dict(zip(PRED_NAMES[:9], impl[:9])), "spec": dict(zip(PRED_NAMES[:9], spec_vals[i])),
+                               "model": None if model_vals is None else model_vals[i], "python": _classify_snippet(t),
+                               "explanation": "a union of two types without None is classified optional / container / resolved to one of its members"})
         elif rt[0] == "P" and rt[1][0] in ("C", "E"):
             stats["pep604_top"] += 1
             if impl[1] == 0:
@@ -970,6 +1081,7 @@ def check_classification(rep, model_ok: bool, kf_classes: set, depth: int = 2) -
         rep.oblige("correspondence:translator", not bad_model,
                    f"{len(fields)} annotations, all 13 predicates equal" if not bad_model else detail)
     stats["observations"] = observations
+    stats["violations_found"] = n_viol[0]
     return stats
 
 
@@ -1013,7 +1125,16 @@ def check_diagrams(rep, cases: List[dict], model_ok: bool, kf_classes: set, tag:
             return getattr(real_rep, a)
 
     real_rep, rep = rep, _Capped()
-    vals = core.coq_values(RUN, header, [case_coq(c) for c in cases], chunk=20, tag=tag + "_coq")
+    vals = core.coq_values(RUN, header, [case_coq(c, model_ok) for c in cases], chunk=20, tag=tag + "_coq")
+    vals2: Dict[int, Any] = {}
+    rb_cases = [c for c in cases if c.get("rebuild")]
+    if rb_cases:
+        exprs = []
+        for c in rb_cases:
+            d2, cs2 = second_program(c)
+            exprs.append(case_coq({"decls": d2, "classes": cs2, "ops": [], "ids": c["ids"]}, model_ok))
+        for c, v in zip(rb_cases, core.coq_values(RUN, header, exprs, chunk=20, tag=tag + "_coq2")):
+            vals2[id(c)] = v
     dist = {"cases": len(cases), "invalid": 0, "in_F": 0, "streams": {}, "variants": {}, "classes": {}, "edges_inh": 0,
             "edges_assoc": 0, "ops": 0, "sub_ops": 0, "sub_that_removed": 0, "build_raises": 0, "kf_instances": {}}
     kind_exprs: Dict[str, Tuple[str, Any]] = {}
@@ -1079,6 +1200,22 @@ def check_diagrams(rep, cases: List[dict], model_ok: bool, kf_classes: set, tag:
                                ids=c["ids"]))
         elif model_ok and impl != model:
             rep.oblige("correspondence:model", False, f"impl={impl} model={model} spec={spec} on {c['decls']} {c['classes']}")
+        # ---------------- the second diagram of the same process (after a class was defined again)
+        if c.get("rebuild") and "build2" in r:
+            v2 = vals2[id(c)]
+            spec2, model2 = v2[1], (v2[2][0] if model_ok else None)
+            impl2 = r["build2"]
+            py2 = [0, r["pyspec2"]] if r.get("pyspec2") and r["pyspec2"][0] != "error" else None
+            dist["second_diagrams"] = dist.get("second_diagrams", 0) + 1
+            if py2 is not None and py2 != spec2:
+                rep.oblige("correspondence:spec-vs-independent-reading", False, f"[second diagram] Coq Spec {spec2} differs from the reading {py2} on {c['decls']} {c['rebuild']}")
+            if impl2 != spec2:
+                rep.violation(dict(base, kind="counterexample", part="edges", second_diagram=True, impl=impl2, spec=spec2, model=model2,
+                                   python=snippet(c) + "\n" + c["rebuild"]["source"] + f"print('second diagram:', snap(ClassDiagram([{', '.join(c['rebuild']['classes'])}])))",
+                                   explanation="a second diagram built in the same process after one class was defined again (new object under the same name): names "
+                                               "written as strings denote the new class; ids of replaced objects are those of <name>__old", ids=c["ids"]))
+            elif model_ok and impl2 != model2:
+                rep.oblige("correspondence:model", False, f"[second diagram] impl={impl2} model={model2} on {c['decls']} {c['rebuild']}")
         # ---------------- classification of the diagram's fields (against the Spec, for supported annotations)
         kinds = {d["name"]: d["kind"] for d in c["decls"]}
         for fk, (owner, pv) in (r.get("kinds") or {}).items():
@@ -1192,7 +1329,7 @@ def replay_finding(rep, f, model_ok: bool) -> None:
     w = json.loads((core.VERIF / f.witness).read_text())
     case = finish_case(dict(w["case"]))
     r = run_worker_batch([case], "kf_" + f.cls)[0]
-    v = core.coq_values(RUN, HEADER if model_ok else HEADER_SPEC, [case_coq(case)], tag="kf_" + f.cls)[0]
+    v = core.coq_values(RUN, HEADER if model_ok else HEADER_SPEC, [case_coq(case, model_ok)], tag="kf_" + f.cls)[0]
     impl = r.get("build")
     pyspec = [0, r.get("pyspec")]
     model = v[2][0] if model_ok else None
@@ -1292,11 +1429,11 @@ def _run(tier: str, seed: int, replay=None) -> int:
     corpus = [(n, w) for n, w in load_corpus()]
     corpus_cases = [finish_case(dict(w["case"])) for n, w in corpus if not n.startswith("kf_")]
     rng = core.Rng(seed)
-    n_f, n_sh, n_ov, n_un, n_tc, n_lo, n_lm = (150, 30, 20, 40, 40, 50, 15) if tier == "quick" else (4000, 700, 400, 700, 700, 900, 250)
+    n_f, n_sh, n_ov, n_un, n_tc, n_lo, n_lm, n_rb = (150, 30, 20, 40, 40, 50, 15, 40) if tier == "quick" else (4000, 700, 400, 700, 700, 900, 250, 700)
     cases = list(corpus_cases)
     for stream, n in (("F", n_f), ("shared", n_sh), ("override", n_ov), ("unsupported", n_un), ("typecheck", n_tc),
-                      ("local", n_lo), ("local_missing", n_lm)):
-        r = rng.fork({"F": 1, "shared": 2, "override": 3, "unsupported": 4, "typecheck": 5, "local": 6, "local_missing": 7}[stream])
+                      ("local", n_lo), ("local_missing", n_lm), ("rebuild", n_rb)):
+        r = rng.fork({"F": 1, "shared": 2, "override": 3, "unsupported": 4, "typecheck": 5, "local": 6, "local_missing": 7, "rebuild": 8}[stream])
         for _ in range(n):
             cases.append(gen_program(r, stream))
     t1 = time.time()
